@@ -194,3 +194,11 @@ _p('C20', ['r_encform', 'r_control', 'r_table', 'r_segments'],
    'written in the compact form stay compact (R-CONTROL form obligations) and every operator is re-emitted as itself with its '
    'memory/table index preserved (R-TABLE), so no immediate or opcode of another proposal can appear.',
    not_decided='how wasm-encoder chooses encodings for a given Instruction/section value (trusted)')
+
+_p('C12', ['r_customs', 'r_restore'],
+   'Unknown custom sections: in the payload world where the name is not producers / name / .debug*, Module::parse adds exactly '
+   'one RawCustomSection whose name and data are the payload\'s, unmodified; RawCustomSection::name/data return those fields; '
+   'emit_wasm serialises every non-.debug section exactly once per loop iteration with (name(), data(indices)) and no other '
+   'condition can suppress it; the loop walks the arena in creation order; emit_wasm puts `customs` back (R-RESTORE) so a '
+   'second emit sees them; nothing reachable from gc::run mutates ModuleCustomSections.',
+   not_decided='byte identity as written by wasm-encoder (trusted); custom sections implemented by users')
